@@ -180,7 +180,7 @@ def run_shard(shard: dict) -> Res:
         elif shard["kind"] == "random":
             rng = random.Random(shard["seed"])
             for i in range(shard["n"]):
-                toks = [rng.choice(ALPHABET) for _ in range(rng.randint(3, 30))]
+                toks = [rng.choice(ALPHABET) for _ in range(rng.randint(3, 30) if i % 200 else rng.choice([300, 1200]))]
                 text = "".join(t + rng.choice(["", " ", " ", "\n"]) for t in toks)
                 run_text(res, text, "random")
                 if i == 0:
